@@ -800,7 +800,7 @@ func (c *Compiler) writeNode(node, parent *node, recv, v, vsrc string, depth int
 			case "string", "[]byte":
 				c.wl("*buf = append((*buf)[:0], ", c.fmtVnb(node.mapk, "k", depth+1), "...)")
 			case "bool":
-				c.wl(`if k { *buf = append((*buf)[:0], "true"...) } else { *buf = append(*buf[:0], "false"...) }`)
+				c.wl("if ", c.fmtVnb(node.mapk, "k", depth+1), ` { *buf = append((*buf)[:0], "true"...) } else { *buf = append((*buf)[:0], "false"...) }`)
 			case "int", "int8", "int16", "int32", "int64":
 				c.wl("*buf = strconv.AppendInt((*buf)[:0], int64(", c.fmtVnb(node.mapk, "k", depth+1), "), 10)")
 			case "uint", "uint8", "uint16", "uint32", "uint64":
@@ -809,7 +809,7 @@ func (c *Compiler) writeNode(node, parent *node, recv, v, vsrc string, depth int
 				c.wl("*buf = strconv.AppendFloat((*buf)[:0], float64(", c.fmtVnb(node.mapk, "k", depth+1), "), 'f', -1, 64)")
 			default:
 				c.regImport([]string{`"github.com/koykov/x2bytes"`})
-				c.wl("*buf, err = x2bytes.AnyToBytes(*buf[:0], k)")
+				c.wl("*buf, err = x2bytes.AnyToBytes((*buf)[:0], k)")
 				c.wl("if err != nil { return }")
 			}
 			c.wl("l.SetKey(buf, &inspector.StaticInspector{})")
